@@ -694,3 +694,86 @@ func (l *Life) RandomScenario(p *GenProfile, steps int, tag string) {
 		l.Close(h)
 	}
 }
+
+// LeanMergeScenario: three large lean segments (different term subsets), merged with drop patterns
+// chosen so that per-term cardinalities move across the 1024-hit chunk rules, then merged again.
+func (l *Life) LeanMergeScenario(p *GenProfile, tag string) {
+	lcms := []int{1024, 1024, 512}
+	l.Reset(lcms[l.r.Intn(len(lcms))], tag)
+	modes := []int{1025, 1026, 1026, 1024}
+	var hs []*hseg
+	idBase := 0
+	for i := 0; i < 3; i++ {
+		b := GenBatch(l.r, p, idBase)
+		idBase += len(b)
+		if h := l.Build(b, modes[l.r.Intn(len(modes))]); h != nil {
+			hs = append(hs, h)
+		}
+	}
+	if len(hs) < 2 {
+		return
+	}
+	patterns := func(n int) Drop {
+		switch l.r.Intn(5) {
+		case 0:
+			return Drop{Nil: true, Ds: Ints{}}
+		case 1: // drop about half
+			ds := Ints{}
+			for d := 0; d < n; d++ {
+				if l.r.Intn(2) == 0 {
+					ds = append(ds, d)
+				}
+			}
+			return Drop{Ds: ds}
+		case 2: // keep a prefix
+			ds := Ints{}
+			for d := 200 + l.r.Intn(n/2); d < n; d++ {
+				ds = append(ds, d)
+			}
+			return Drop{Ds: ds}
+		case 3: // drop a tenth
+			ds := Ints{}
+			for d := 0; d < n; d++ {
+				if l.r.Intn(10) == 0 {
+					ds = append(ds, d)
+				}
+			}
+			return Drop{Ds: ds}
+		default: // keep few
+			ds := Ints{}
+			for d := 0; d < n; d++ {
+				if l.r.Intn(20) != 0 {
+					ds = append(ds, d)
+				}
+			}
+			return Drop{Ds: ds}
+		}
+	}
+	var merged []*hseg
+	for m := 0; m < 2; m++ {
+		perm := l.r.Perm(len(hs))
+		n := 2 + l.r.Intn(len(hs)-1)
+		ins := []*hseg{}
+		drops := []Drop{}
+		for _, i := range perm[:n] {
+			ins = append(ins, hs[i])
+			drops = append(drops, patterns(hs[i].ndocs))
+		}
+		if k, ok := l.Merge(ins, drops, modes[l.r.Intn(len(modes))]); ok {
+			if h := l.Open(k); h != nil && !h.zero {
+				merged = append(merged, h)
+			}
+		}
+	}
+	if len(merged) > 0 {
+		// merge a merged segment again, together with a built one
+		ins := []*hseg{merged[0], hs[l.r.Intn(len(hs))]}
+		drops := []Drop{patterns(merged[0].ndocs), patterns(ins[1].ndocs)}
+		if k, ok := l.Merge(ins, drops, modes[l.r.Intn(len(modes))]); ok {
+			l.Open(k)
+		}
+	}
+	for _, h := range l.live() {
+		l.Close(h)
+	}
+}
